@@ -9,3 +9,25 @@ Print Assumptions C10_fast.
 Theorem C10_hc : forall depth, 0 <= depth -> contract_stmt (fun src dstlen => compress_hc_list src depth dstlen).
 Proof. exact hc_contract. Qed.
 Print Assumptions C10_hc.
+
+(* ---- the sequence-emission code of the translated fast compressor (GenCompressBodyLoop.v) ----
+   from `if di >= len(dst)` to the end of "Encode match length part 2": for any state with literal length lL,
+   reduced match length mL, offset off, anchor a and cursor di0, the code takes the error return EXACTLY when
+   the sequence does not fit (the model's ser_seqs test), and otherwise leaves dst = ... ++ enc_seq s ++ ...
+   with s = (src[a:a+lL], off, mL+4), di advanced by the encoded size and anchor = si (emit_ok): the bytes the
+   code writes for a sequence are the block format's encoding of that sequence.  (`emit` is this segment of the
+   generated function with its continuation left open; transcribed, see GenCompressBodyTie.v.) *)
+From LZ4V Require Import GoT GenCompressBody GenCompressBodyProofs GenCompressBodyLoop.
+Theorem C10_translated_sequence_emission :
+  forall (src ssp : list Z) (dl dsp : Z), 0 <= dsp -> zlen src + dl + dsp < 2 ^ 61 -> 0 <= dl ->
+  forall (fuel : nat) (K : stmt) (s : state) (M : list Z) (a lL off mL di0 si : Z),
+    frame src ssp dl dsp s -> m_dst s = M -> zlen M = dl + dsp ->
+    f_di s = di0 -> f_lLen s = lL -> f_mLen s = mL -> f_off s = off -> f_anchor s = a -> f_si s = si ->
+    0 <= di0 -> 0 <= lL -> 0 <= mL < 2 ^ 61 -> 0 <= a -> a + lL <= zlen src -> 0 <= off < 65536 ->
+    (Z.to_nat dl < fuel)%nat ->
+    if dl <? di0 + seq_size (the_seq src a lL off mL)
+    then err_exit (emit fuel K s)
+    else exists s' : state, emit fuel K s = K s' /\ frame src ssp dl dsp s' /\ keeps s s' /\
+                            emit_ok src M a lL off mL di0 si s'.
+Proof. exact emit_exec. Qed.
+Print Assumptions C10_translated_sequence_emission.
